@@ -315,6 +315,8 @@ type c01Side struct {
 	wire  proto.Message // what the client puts into transport_params (nil: field absent)
 	// model notation of the parameters the client sends ("-" when it sends none)
 	wireText string
+	// obfs4: clamped private key ‖ node id (the model treats X25519 as a parameter)
+	modelIdent []byte
 }
 
 func (s c01Side) String() string {
@@ -432,6 +434,12 @@ func c01Client(w *c01World, c *c01Case) (s c01Side) {
 		ct = &dtls.ClientTransport{}
 	default:
 		ct = &min.ClientTransport{} // a transport the station has not enabled; the client side is irrelevant
+	}
+	if pt, ok := ct.(*prefix.ClientTransport); ok && c.params == "-" {
+		// a prefix client that was never given a prefix cannot build its registration (GetParams fails)
+		if _, err := pt.GetParams(); err != nil {
+			return c01Side{kind: "noclient", wireText: "-"}
+		}
 	}
 	if c.params != "-" {
 		// a client that cannot even configure its transport sends no registration; the station is still
@@ -577,6 +585,7 @@ func c01Client(w *c01World, c *c01Case) (s c01Side) {
 		}
 		k := obfs4.VerifC01ClientKeys(wt)
 		s.ident = append(append([]byte{}, k.PublicKey.Bytes()[:]...), k.NodeID.Bytes()[:]...)
+		s.modelIdent = append(append([]byte{}, k.PrivateKey.Bytes()[:]...), k.NodeID.Bytes()[:]...)
 	case "dtls":
 		s.ident = nil
 	}
@@ -695,12 +704,7 @@ func c01Run(t testing.TB, out *vlib.Out, w *c01World, c c01Case) {
 			c.cfg.modelText(t, int(c.gen)), cdraws)
 		cans := cl.String()
 		if cl.kind == "ok" && c.transport == "obfs4" {
-			// as on the station side the model is shown the private key; the client's is not exported, so
-			// the station's is used after checking that both public keys agree (oracle below)
-			cans = fmt.Sprintf("ok %s %s %d %s", vlib.Hex(cl.seed), vlib.Hex(cl.addr), cl.port, vlib.Hex(stModelIdent))
-			if st.kind != "ok" || !bytes.Equal(st.ident, cl.ident) {
-				cans = "ok (obfs4 keys differ)"
-			}
+			cans = fmt.Sprintf("ok %s %s %d %s", vlib.Hex(cl.seed), vlib.Hex(cl.addr), cl.port, vlib.Hex(cl.modelIdent))
 		}
 		if c.transport != "unknown" && !(c.transport == "prefix" && c.ver < 3) && cl.kind != "noclient" {
 			out.Case(cline, cans, cl.kind == "ok")
@@ -712,6 +716,12 @@ func c01Run(t testing.TB, out *vlib.Out, w *c01World, c c01Case) {
 		out.Checked()
 		c01Fail(out, "C01:station-panics", "the station path panics: "+st.err, c.replay())
 		return
+	}
+	if st.kind == "ok" {
+		out.Checked()
+		if !c01WellFormed(st.addr, c.v6) {
+			c01Fail(out, "C01:malformed-rendezvous-address", fmt.Sprintf("the station registers a phantom of %d bytes (%x): no client can dial it", len(st.addr), []byte(st.addr)), c.replay())
+		}
 	}
 	if c.clientKeys != nil {
 		out.Checked()
